@@ -41,9 +41,38 @@ def batches(tier, seed):
         c['_proc'] = True
         pc.append(c)
     yield 'g-conn-processor', pc
+    # the aggregated degree of a grouping connector as a pure function of its present members
+    gc = []
+    for i in range(120 if tier == 'quick' else 1500):
+        ms = [[list(rng.choice(conndrive.SPECS + [['range', 2, 4], ['min', 3], ['list', [0]], ['list', [0, 1, 4]]])), rng.random() < 0.35]
+              for _ in range(rng.choice([0, 1, 2, 2, 3, 3, 4]))]
+        gc.append({'_grp': True, 'members': ms, '_i': i})
+    yield 'grouping-degree', gc
+
+
+def _run_grouping(case):
+    import math
+    from common import sx
+    from adsg_core.graph.adsg_nodes import ConnectorNode, ConnectorDegreeGroupingNode
+    ms = case['members']
+    nodes = [ConnectorNode('m%d' % k, deg_spec=dsgcase._degspec_py(d), repeated_allowed=bool(rep)) for k, (d, rep) in enumerate(ms)]
+    try:
+        dl, dmin, dmax = ConnectorDegreeGroupingNode.get_combined_deg(nodes)
+        rep = bool(ConnectorDegreeGroupingNode.get_repeated_allowed(nodes))
+    except Exception as e:
+        if not ms:
+            return {'skip': 'no-members', 'tags': ['grp']}
+        return {'fail': {'clause': 'combined-degree-raises:%s' % type(e).__name__, 'detail': '%s: %s' % (ms, e)}, 'tags': ['grp']}
+    impl = [None if dl is None else sorted(int(x) for x in dl), None if dl is not None else int(dmin), rep]
+    if dl is None and dmax != math.inf:
+        return {'fail': {'clause': 'combined-degree-open-with-finite-max', 'detail': '%s -> %s' % (ms, (dl, dmin, dmax))}, 'tags': ['grp']}
+    return {'queries': [sx(['combined', [conndrive.spec_sx(d, rep_) for d, rep_ in ms]])], 'impl': {'grp': impl},
+            'nontrivial': len(ms) >= 2, 'tags': ['grp', 'members=%d' % len(ms)]}
 
 
 def run_case(case):
+    if case.get('_grp'):
+        return _run_grouping(case)
     c = {k: v for k, v in case.items() if not k.startswith('_')}
     if case.get('_proc'):
         return conndrive.explore_processor(c, seed=case.get('_i', 0))
@@ -51,6 +80,12 @@ def run_case(case):
 
 
 def compare(case, r, ms):
+    if case.get('_grp'):
+        m = ms[0]
+        lst = None if m[0] == 'none' else sorted(int(x) for x in m[0][1])
+        want = [lst, None if lst is not None else int(m[1]), bool(m[2])]
+        if want != r['impl']['grp']:
+            return {'clause': 'combined-degree-differs-from-model', 'detail': '%s: implementation %s model %s' % (case['members'], r['impl']['grp'], want)}
     return None
 
 
@@ -86,6 +121,8 @@ def _group_with_open_member(case):
 
 
 def match_known(case, fail, known):
+    if case.get('_grp'):
+        return None
     for k in known:
         if k.get('id') == 'K22' and (fail.get('clause') or '').startswith('decode-raises:RuntimeError') and 'should never (automatically) impute' in (fail.get('detail') or ''):
             return k
